@@ -24,7 +24,7 @@ func ZZ_C03_schnorrwithdraw() {
 	nd.Stub("core/contract.CreateSchnorrRedeemScript")
 	nd.Stub("(crypto/elliptic.Curve).Add")
 	arb := &zzArbiters{}
-	for i := 0; i < nd.Choose("arbiters", 4); i++ {
+	for i, zzn := 0, nd.Choose("arbiters", 4); i < zzn; i++ {
 		arb.cross = append(arb.cross, &state.ArbiterInfo{NodePublicKey: zzKeyBytes(i), IsNormal: true})
 	}
 	old := blockchain.DefaultLedger
